@@ -36,6 +36,12 @@ impl Proj for SB {
         self.payload()
     }
 }
+impl Proj for WA {
+    fn payload_ref(&self) -> &Payload {
+        // a weak pointer cannot be dereferenced without upgrading; projections see nothing
+        &ZERO_PAYLOAD
+    }
+}
 impl Proj for Option<SA> {
     fn payload_ref(&self) -> &Payload {
         match self {
